@@ -10,7 +10,7 @@ RULE = ("Chains of depth 0..6 whose links are drawn from {await coroutine, await
         "whose __await__ returns a coroutine wrapper / is a generator / returns a plain generator, async for / __anext__ / "
         "asend / athrow / aclose on a native async generator}, outermost object a coroutine, generator, generator-based "
         "coroutine or async generator, ending in a trap (suspending 1-3 times), a future-like non-frame awaitable or a list "
-        "iterator; single-line and multi-line await expressions; every suspension point of each chain observed (fresh chain per "
+        "iterator; plus a fixed family of deep single-kind chains (30..130 links) and one deep mixed chain; single-line and multi-line await expressions; every suspension point of each chain observed (fresh chain per "
         "point) on CPython 3.9-3.12. Oracle: differential against the interpreter itself - a BaseException thrown into x right "
         "after extraction; its traceback's (frame object, line) list must equal extract(x).frames; leaf is the terminator the "
         "builder created; root is x; with_contexts on/off same frames; exhausted x gives nothing. Non-trivial: depth >= 2 frames "
@@ -47,10 +47,30 @@ def check_case(ws, interps, ir, out, op=OP, extra=None):
     return viols
 
 
+def deep_chains():
+    """Long chains of one link kind each (and one mixed): the unwrapping loop's no-progress guard counts
+    steps since the last frame, so depth itself must never trip it."""
+    out = []
+    for kind, depths in (("await_coro", (60, 130)), ("await_obj_wrapper", (40, 70)), ("yield_from_gen", (60, 110)),
+                         ("asend", (30, 50)), ("anext", (45,)), ("await_gencoro", (120,)), ("await_obj_gen", (60,))):
+        for d in depths:
+            out.append({"outer": "coro", "outer_ml": False, "links": [[kind, False]] * d, "end": "trap", "nsusp": 1})
+    mixed = [["asend", False], ["await_obj_wrapper", True], ["yield_from_gen", False], ["await_coro", False]] * 12
+    out.append({"outer": "agen", "outer_ml": True, "links": mixed, "end": "fut", "nsusp": 1})
+    return out
+
+
 def shard(arg):
     out = Outcome()
     interps = arg["interps"]
     with WorkerSet(interps, hooks=False) as ws:
+        for ir in arg.get("deep", []):
+            v = check_case(ws, interps, ir, out, arg["op"])
+            out.hist["deep_chain"] += 1
+            if v:
+                out.violation(v[0]["desc"], ir, v[0]["interp"], obs=v[0].get("obs"), origin="deep")
+        if out.violations:
+            return out
         fail = hyp_search(chainstrat.chains(), lambda ir: check_case(ws, interps, ir, out, arg["op"]),
                           seed=arg["seed"], max_examples=arg["n"], shrink=arg["shrink"])
         if fail:
@@ -62,7 +82,9 @@ def shard(arg):
 def run(ctx, op=OP, module="checks.c03"):
     nshards = ctx.pick(8, 16)
     n = ctx.pick(640, 48000) // nshards
-    args = [{"interps": ALL, "seed": ctx.shard_seed(i), "n": n, "shrink": not ctx.quick, "op": op} for i in range(nshards)]
+    deep = deep_chains() if op == OP else []
+    args = [{"interps": ALL, "seed": ctx.shard_seed(i), "n": n, "shrink": not ctx.quick, "op": op, "deep": deep[i::nshards]}
+            for i in range(nshards)]
     out = run_shards(module, "shard", args)
     out.extra["interpreters"] = ALL
     return out
